@@ -9,7 +9,7 @@ TRUSTED_BASE = ["Lean 4.33 kernel", "axioms: propext, Classical.choice, Quot.sou
 ASSUMPTIONS = ["time and memory are judged through proxies: wall clock per object (limit 10 s for inputs <= 2 MiB), number of results, RLIMIT_AS 4 GiB on the harness process",
                "only the version-number loop is modelled with a cost counter; every other loop of the validator iterates over parsed input or directory listings and is exercised by the mutation run"]
 CORRESPONDENCE = "ValidateNums.run (lean/RocflModel/ValidateNums.lean) vs validate_version_nums (src/ocfl/validate/serde.rs) via the E010 count"
-BUDGET = {"quick": dict(mutants=500, vsets=300, seconds=170), "thorough": dict(mutants=30000, vsets=20000, seconds=1700)}
+BUDGET = {"quick": dict(mutants=1500, vsets=300, seconds=170), "thorough": dict(mutants=30000, vsets=20000, seconds=1700)}
 RULE = ("single-edit and multi-edit mutants of inventories written by rocfl (types, absent keys, absurd version numbers, ids, paths, digests, dates, deep nesting, "
         "duplicate keys), raw byte mutations, sidecar and declaration garbage, odd directory structures (files for directories, symlink loops, FIFOs); every mutant "
         "validated in-process with and without fixity; distinct non-trivial = distinct (mutation kind, outcome class, error-code set)")
@@ -176,7 +176,8 @@ def mutate_inventory(inv, rng):
 
 def mutate_structure(obj, rng):
     """odd directory structures; returns description"""
-    k = rng.choice(["inv-dir", "ver-file", "content-file", "symloop", "fifo-content", "fifo-inv", "sidecar", "namaste", "deep", "manyfiles", "symlink-root-inv"])
+    k = rng.choice(["inv-dir", "ver-file", "content-file", "symloop", "fifo-content", "fifo-inv", "sidecar", "namaste", "deep", "manyfiles", "symlink-root-inv",
+                    "inv-transplant", "inv-transplant", "inv-mutant-in-version"])
     inv = valprop.inv_of(obj)
     head = inv["head"]
     cdir = inv.get("contentDirectory", "content")
@@ -227,6 +228,33 @@ def mutate_structure(obj, rng):
         os.makedirs(p, exist_ok=True)
         for i in range(2000):
             open(os.path.join(p, "f%d" % i), "w").close()
+    elif k == "inv-transplant":
+        # an inventory (with its sidecar) of one place copied over another: versions swapped, the root's into an
+        # old version, an old version's into the root
+        places = [""] + sorted(v for v in inv["versions"] if os.path.isfile(os.path.join(obj, v, "inventory.json")))
+        if len(places) >= 2:
+            a, b = rng.sample(places, 2)
+            vs_only = places[1:]
+            if len(vs_only) >= 2 and rng.random() < 0.6:
+                # an older version's inventory in a later version directory (its head is lower than the directory)
+                i = rng.randrange(len(vs_only) - 1)
+                a, b = vs_only[i], vs_only[rng.randrange(i + 1, len(vs_only))]
+            for f in ("inventory.json", "inventory.json." + alg):
+                if os.path.isfile(os.path.join(obj, a, f)):
+                    shutil.copy(os.path.join(obj, a, f), os.path.join(obj, b, f))
+            k += ":%s->%s" % (a or "root", b or "root")
+    elif k == "inv-mutant-in-version":
+        # the inventory mutations above, applied to the inventory of a version directory (sidecar recomputed)
+        vs = sorted(v for v in inv["versions"] if os.path.isfile(os.path.join(obj, v, "inventory.json")))
+        if vs:
+            v = rng.choice(vs)
+            vinv = json.load(open(os.path.join(obj, v, "inventory.json")))
+            what, val = mutate_inventory(vinv, rng)
+            if isinstance(val, (bytes, bytearray)):
+                valprop.rewrite_inventory(os.path.join(obj, v), None, alg=alg, raw=bytes(val))
+            else:
+                valprop.rewrite_inventory(os.path.join(obj, v), val, alg=alg)
+            k += ":%s:%s" % (v, what)
     elif k == "symlink-root-inv":
         os.unlink(os.path.join(obj, "inventory.json")); os.symlink("/dev/zero" if rng.random() < 0.3 else "nonexistent", os.path.join(obj, "inventory.json"))
     return k
@@ -247,7 +275,7 @@ def run(rep, tier, seed, proof_broken=False):
     rng = random.Random(seed)
     budget = BUDGET["thorough" if (tier == "thorough" or proof_broken) else "quick"]
     t_end = time.time() + budget["seconds"]
-    sb, objs = valprop.build_objects(rng)
+    sb, objs = valprop.build_objects(rng, n=6, max_extra=4)
     g = Guarded()
     fails, dis = [], []
     try:
